@@ -28,7 +28,7 @@ LEVEL_TEXT = ("Lean 4 theorems over R (Mathlib HasDerivAt / Real.sqrt / Complex.
               "own right-hand side (oracle). Rounds 4-9: the headline holds for what project_equations() ITSELF hands to the "
               "solvers (C05_pe_design_matrix_is_jacobian, Props/C05ProjectEquations.lean via extra.py: projectEquations net = "
               ".ok (np,u) and a row outside the cut => sparse row summed in the column index_*() of an adjusted unknown = the "
-              "partial derivative, 0 elsewhere, np.rhs = misclosure; dense form C01_pe_matrix_is_jacobian under NoAlias); "
+              "partial derivative, 0 elsewhere, np.rhs = misclosure; dense form C01_pe_matrix_is_jacobian, no NoAlias since round 12: repeated columns add up); "
               "whole-pass totality as an iff (C05_pass_total_iff: a pass returns for some fuel iff no S_Distance / Z_Angle "
               "throws, every start state; C05_design_matrix_exists_and_is_jacobian); clause 6 exact: excluded set = "
               "d < 1e-6, singular set = d = 0, and NEGATIVE theorems C05_cut_excludes_nonsingular(_direction/_azimuth/_angle) "
